@@ -508,6 +508,11 @@ class CompositeFrontend(ConstrainedFrontend):
         if len(combined_noncommons):
             _, merged_noncommon = combined_noncommons[0].merge(combined_noncommons[1:], merge_conditions)
 
+            # a common solver that shares variables with the merged one (e.g. through the merge conditions) joins it
+            overlapping = [s for s in common_solvers if s.variables & merged_noncommon.variables]
+            if overlapping:
+                merged_noncommon = merged_noncommon.combine(overlapping)
+
             merged._owned_solvers.add(merged_noncommon)
             merged._store_child(merged_noncommon)
 
